@@ -240,6 +240,11 @@ RAW_BYTES = ["- 240101#0A caf\udce9 au lait", "- caf\udce9 without a zid", "# ca
              "\udcef\udcbb\udcbf- 240101#0A after a BOM", "- 240101#0A ok\n\udc80\udc80", "- 240101#0A two \udce9\udce8 x"]
 for _k, _t in enumerate(RAW_BYTES):
     CMD_TEXTS.append((f"unusual-item:raw-bytes-{_k}", f"# h\n\n{_t}\n"))
+# names that are also parameter names of the code that stores them, as real tags and properties
+CMD_TEXTS.append(("unusual-item:reserved-names", "# h event::hv self::x\n\n"
+                  + "".join(f"- 2401{10 + _n}#R{_n} note {_k}::v{_n} #{_k} @{_k} [{_k}x:: a b]\n" for _n, _k in enumerate(
+                      ("event", "self", "cls", "args", "kwargs", "name", "key", "value", "id", "type", "format", "level")))
+                  + "- 240130#RZ quoted \"event::q\" '[msg:: a b]'\n"))
 
 
 def _run_cmd_case(ctx, case) -> F.Outcome:
@@ -510,6 +515,15 @@ def _cases(ctx):
               "'[a::b::c]'", "\"a::b::c\"", "[k:: v] [k:: w]", "https://x.y/a::b"):
         for pre in ("- ", "o P1 240101#0A ", "# ", "# t\n\n################################ "):
             flat.append(["digits", pre + w + " tail" if not pre.endswith("# ") or True else pre + w])
+    # property keys / tag names that are also parameter names of logging, formatting and ORM calls
+    # (a name chosen by the user must never be taken for an argument of the code that handles it)
+    for key in ("event", "self", "cls", "args", "kwargs", "msg", "level", "name", "key", "value", "exc_info",
+                "stack_info", "extra", "positional_args", "_record", "logger", "method_name", "format", "id", "type"):
+        for shape in ('"{k}::launch"', "'{k}::launch'", "{k}::launch", "[{k}:: a b]", '"[{k}:: a b]"', "#{k} @{k} %{k} +{k}",
+                      '"#{k}"', "[[{k}]] [#{k}] [@{k}] [^{k}]"):
+            flat.append(["digits", "- the flyer said " + shape.replace("{k}", key) + " there"])
+        flat.append(["digits", "- a note\n  * " + key + ":: bullet value"])
+        flat.append(["digits", "# head " + key + "::hv\n\n- a note under it"])
     for t in RAW_BYTES:
         flat.append(["digits", t])
         flat.append(["digits", t + "\n- 240102#0B a clean note after it"])
